@@ -357,7 +357,7 @@ func (dcc *dataConditionsContainer) finalize(r *Reader, queryPartIndex int, prev
 					content := ""
 					if v.SubQuery == "" {
 						//TODO: maybe extract the regex for this variable
-						content = ".*"
+						content = "(?s:.*)"
 						isPrecondition = true
 					} else {
 						psq := possibleSubQueries[v.SubQuery]
